@@ -136,6 +136,81 @@ def clouds_fn(case):
 
 
 # ---------------------------------------------------------------------------------------------
+# nested windows: a haze declared between two pressures lies inside a haze declared over a wider range, so no layer
+# gets more extinction from the narrower declaration than from the wider one (a consequence of "only inside the
+# declared range, with the declared magnitude", whatever share a partly covered layer is given); in particular a
+# window of no width, and one that is a small part of a single layer, stay below every window that contains them
+# ---------------------------------------------------------------------------------------------
+def nest_fn(case):
+    r = core.R(case)
+    N, prange, kind = case['N'], case['prange'], case['kind']
+    lev = levels_of(N, prange)
+    llev = np.log10(lev)
+    pts = [float(lev[0] * 30.0), float(lev[-1] / 30.0)] + [float(v) for v in lev]
+    for k in range(N):
+        for f in (0.2, 0.5, 0.8):
+            pts.append(float(10 ** (llev[k] + f * (llev[k + 1] - llev[k]))))
+    pts = sorted(set(pts))
+    wins = [(a, b) for i, a in enumerate(pts) for b in pts[i:]]          # top pressure a <= bottom pressure b
+    sigs = {}
+    for (a, b) in wins:
+        if kind == 'flat':
+            contrib = ['flat', {'flat_mix_ratio': 1e-10, 'flat_topP': a, 'flat_bottomP': b}]
+        else:
+            contrib = ['lee', {'lee_mie_mix_ratio': 1e-10, 'lee_mie_topP': a, 'lee_mie_bottomP': b,
+                               'lee_mie_radius': 0.05, 'lee_mie_q': 40.0}]
+        fx.reset_caches()
+        install()
+        m = fx.build_model(base_spec(case, [contrib]))
+        try:
+            m.model()
+        except Exception as e:
+            r.check(False, 'no-exception', 'exception/%s/nested/%s' % (type(e).__name__, kind), exc=repr(e), window=[a, b])
+            continue
+        hz = [c for c in m.contribution_list if type(c).__name__ in ('FlatMieContribution', 'LeeMieContribution')][0]
+        sigs[(a, b)] = np.asarray(hz.sigma_xsec, float)[:, 0].copy()
+    npairs = 0
+    for (a, b), s_in in sigs.items():
+        for (c, d), s_out in sigs.items():
+            if c <= a and b <= d and (a, b) != (c, d):
+                npairs += 1
+                ok = bool(np.all(s_in <= s_out * (1 + 1e-9) + 1e-300))
+                if not ok:
+                    same_layer = bool(np.searchsorted(-lev, -a, side='left') == np.searchsorted(-lev, -b, side='left'))
+                    cls = 'no-width' if a == b else 'inside-one-layer' if (same_layer and a not in lev and b not in lev) \
+                        else 'outside-the-grid' if (b < lev[-1] or a > lev[0]) else 'other'
+                    r.check(False, 'nested-windows', 'nested/%s/%s' % (kind, cls), narrow=[a, b], wide=[c, d],
+                            narrow_sigma=s_in, wide_sigma=s_out, levels=lev)
+    r.count('nested-pairs', npairs)
+    r.check(True, 'nested-windows')
+    # adjoining windows: a haze between a and b next to one of the same magnitude between b and c is the haze between a
+    # and c (optical depths add, each acts only inside its own range) - so a window of no width adds nothing, and the
+    # share given to a partly covered layer is additive over its parts.  (For the all-or-nothing Lee haze, whose layers
+    # are in or out by their own pressure, the shared bound b must not be exactly a layer pressure.)
+    centres = set(float(10 ** (llev[k] + 0.5 * (llev[k + 1] - llev[k]))) for k in range(N))
+    full = max((float(v_.max()) for v_ in sigs.values()), default=0.0)
+    ntrip = 0
+    for i, a in enumerate(pts):
+        for j in range(i, len(pts)):
+            b = pts[j]
+            if kind == 'lee' and b in centres:
+                continue
+            for c in pts[j:]:
+                if (a, b) in sigs and (b, c) in sigs and (a, c) in sigs:
+                    ntrip += 1
+                    tot = sigs[(a, b)] + sigs[(b, c)]
+                    if not np.allclose(sigs[(a, c)], tot, rtol=1e-9, atol=1e-9 * full):
+                        cls = 'no-width' if (a == b or b == c) else 'parts-of-a-layer'
+                        r.check(False, 'adjoining-windows', 'adjoining/%s/%s' % (kind, cls), a=a, b=b, c=c,
+                                whole=sigs[(a, c)], parts=[sigs[(a, b)], sigs[(b, c)]], levels=lev)
+    r.count('adjoining-triples', ntrip)
+    r.check(True, 'adjoining-windows')
+    r.observe(sorted((k_, v_.tolist()) for k_, v_ in sigs.items()))
+    r.nontrivial = npairs > 0
+    return r
+
+
+# ---------------------------------------------------------------------------------------------
 def lee_sigma(wn, a_um, q):
     lam = 10000.0 / np.asarray(wn, float)
     x = 2.0 * math.pi * a_um / lam
@@ -344,6 +419,9 @@ def explore(ctx):
             hcases.append({'kind': 'lee', 'N': N, 'prange': pr, 'top': top, 'bottom': bot, 'mix': mix,
                            'radius': rad, 'q': q, 'with_abs': mix == 1e-10})
     ctx.run_cases('haze_fn', hcases, phase='hazes')
+    nc = [{'kind': k_, 'N': n_, 'prange': pr} for k_ in ('flat', 'lee') for n_ in ((1, 2, 3, 5) if thorough else (1, 3))
+          for pr in PRANGES[:(len(PRANGES) if thorough else 1)]]
+    ctx.run_cases('nest_fn', nc, phase='nested-windows', chunk=1)
     if thorough:
         hs = rthist.histories(HIST_ALPHABET, 3, HIST_REDUCED, 4)
     else:
